@@ -683,6 +683,20 @@ fn catalogue_inner(prop: &str, t: Tier, seed: u64, out: &mut Vec<Entry>) {
                 if quick { en.lim.wall_s = 45.0; }
                 out.push(en);
             }
+            // "with and without hiding" inside one commit call: hiding and plain polynomials in both orders, each
+            // opened on its own afterwards (the commit loop's per-polynomial state must not leak between them)
+            for (tag, order) in [("hiding-then-plain", vec![true, false]), ("plain-then-hiding", vec![false, true]), ("hiding-plain-hiding", vec![true, false, true])] {
+                if quick && order.len() == 3 { continue; }
+                let polys: Vec<PolySpec> = order.iter().map(|h| if *h { PolySpec::new(2).conc().hide(1) } else { PolySpec::new(2).conc() }).collect();
+                let n = polys.len();
+                let mut c = Cfg::new(Size::mv(2, 2, 1), polys).points(n, (0..n).map(|i| (i, i)).collect());
+                c.seed = seed;
+                c.rng_nonzero = true;
+                let mut en = e(format!("open/one-commit-{}", tag), t, "points, challenges, blinding", format!("2 variables, degree 2, {:?} committed in one call, each opened at its own point", order), move || c01::honest::<Pst13>(&c, Mode::Single));
+                en.funcs = f.clone();
+                if quick { en.lim.wall_s = 45.0; }
+                out.push(en);
+            }
         }
         "C16" => {
             let f = vec!["LinearCombination::{add_assign,sub_assign,mul_assign}", "evaluate_query_set", "SuccinctCheckPolynomial::{evaluate,compute_coeffs}"];
@@ -1282,6 +1296,10 @@ fn catalogue_inner(prop: &str, t: Tier, seed: u64, out: &mut Vec<Entry>) {
                         // symbolic coefficients under a bound: the zero polynomial (identity shifted commitment) is reached
                         shapes.push(("bound-symbolic-poly", vec![PolySpec::new(1).bound(sup - 1)], 0, Some(vec![sup - 1]), false));
                         shapes.push(("full-srs", vec![PolySpec::new(2).conc().bound(sup)], 0, Some(vec![sup]), true));
+                        if <$S as Sch>::HIDING {
+                            // several enforced bounds, the smallest below the supported hiding bound; hiding polynomials under the larger ones
+                            shapes.push(("hiding-bounds", vec![PolySpec::new(2).conc().bound(sup).hide(2), PolySpec::new(2).conc().bound(sup - 1).hide(1), PolySpec::new(2).conc()], 2, Some(vec![1, sup - 1, sup]), false));
+                        }
                     }
                     if name == "pst13" {
                         shapes.push(("nv3-deg2", vec![PolySpec::new(2).conc()], 0, None, false));
